@@ -24,7 +24,7 @@ Definition addr := nat.
 Inductive inl := INull | ITrue | IFalse | IEmptyArray | IEmptyRecord.
 Inductive value := VInl (i : inl) | VPtr (a : addr).
 Inductive kind := KValue | KThunk | KRc.
-Definition tval : Type := (kind * value)%type.
+Notation tval := (kind * value)%type.
 
 (* DataTag of mod.rs, plus the std Rc boxes *)
 Inductive tag :=
